@@ -178,7 +178,7 @@ func Main(args []string) {
 	if err != nil {
 		common.Fatalf("read: %v", err)
 	}
-	results := common.Supervise("cacheconf-child", nil, lines, 120*time.Second, 12)
+	results := common.SuperviseRetry("cacheconf-child", nil, lines, 120*time.Second, 12)
 	for i := range results {
 		r := &results[i]
 		if !r.OK && (r.Key == "crash" || r.Key == "hang") {
